@@ -127,7 +127,8 @@ def history(draw, with_faults):
         ops = draw(st.lists(progress_ops(), min_size=1, max_size=n))
     else:
         ops = draw(st.lists(status_ops(), min_size=1, max_size=n))
-    spec = {"kind": kind, "W": W, "H": H, "overflow": overflow, "transient": transient, "ops": ops, "initial": draw(frame_lines(3)), "redirect": draw(st.booleans())}
+    spec = {"kind": kind, "W": W, "H": H, "overflow": overflow, "transient": transient, "ops": ops, "initial": draw(frame_lines(3)), "redirect": draw(st.booleans()),
+            "redirect_err": draw(st.booleans()), "disable": kind == "progress" and draw(st.sampled_from([False, False, False, True]))}
     if with_faults:
         spec["fault"] = draw(st.one_of(
             st.builds(lambda k, p, c: {"mode": "render", "at": k, "persistent": p, "catch": c}, st.integers(0, 12), st.booleans(), st.booleans()),
@@ -180,7 +181,7 @@ class Runner:
         fault = self.fault
         if self.kind == "live":
             self.display = Live(Frame(self.rend, fault), console=self.con, auto_refresh=False, transient=self.transient, vertical_overflow=self.spec["overflow"],
-                                redirect_stdout=self.spec["redirect"], redirect_stderr=self.spec["redirect"])
+                                redirect_stdout=self.spec["redirect"], redirect_stderr=self.spec.get("redirect_err", self.spec["redirect"]))
         elif self.kind == "progress":
             class Col(ProgressColumn):
                 def render(self, task):
@@ -189,7 +190,7 @@ class Runner:
                     return Text("%s %d" % (task.description, task.completed))
 
             self.display = Progress(Col(), console=self.con, auto_refresh=False, transient=self.transient, get_time=lambda: 100.0,
-                                    redirect_stdout=self.spec["redirect"], redirect_stderr=self.spec["redirect"])
+                                    redirect_stdout=self.spec["redirect"], redirect_stderr=self.spec.get("redirect_err", self.spec["redirect"]), disable=self.spec.get("disable", False))
             progress = self.display
 
             def task_list():
@@ -208,6 +209,8 @@ class Runner:
     # ---------------------------------------------------------------- expected screen
     def frame_now(self, final=False, refreshed=True):
         """Rows the frame occupies when drawn now."""
+        if self.kind == "progress" and self.spec.get("disable"):
+            return []  # a disabled Progress shows nothing; printing goes on as usual
         if self.kind == "progress":
             # the frame is the table as of the last refresh (prints redraw that snapshot); the display pads it to its historical maximum height
             if refreshed:
